@@ -162,6 +162,44 @@ def gen_cases(tier, seed):
             tg = ir.term_targets({'objs': [o for o in t['objs']
                                            if o['t'] != 'br']})
             base.update(terms=[t], targets=r.sample(tg, r.randint(0, len(tg))))
+        elif kind == 'group' and r.random() < 0.15:
+            # several reference terms with unsymmetric remainders and different
+            # denominators plus one term whose remainder is symmetric in the
+            # indices its denominator could sit on: a permutation that leaves
+            # that remainder invariant maps its denominator onto more than one
+            # reference (the term must still land in exactly one group)
+            if r.random() < 0.5:
+                S_, o_ = r.sample(['i', 'j', 'k', 'l'], r.choice([2, 3, 3])), 'a'
+                sg = ('1', '-1')
+            else:
+                S_, o_ = r.sample(['a', 'b', 'c', 'd'], r.choice([2, 3, 3])), 'i'
+                sg = ('-1', '1')
+            m = r.choice([1, 1, 2])
+            two = r.random() < 0.3   # a second spectator index in the fraction
+
+            def br(x):
+                e_ = [[sg[0], x], [sg[1], o_]]
+                if two:
+                    e_.append([sg[1], 'j' if o_ == 'i' else 'b'])
+                return {'t': 'br', 'e': e_, 'exp': -m}
+            spect = [{'t': 'non', 'name': 'v', 'up': [o_]}]
+            if two:
+                spect.append({'t': 'non', 'name': 'v',
+                              'up': ['j' if o_ == 'i' else 'b']})
+            terms = []
+            for x in r.sample(S_, r.randint(2, len(S_))):
+                terms.append({'pref': r.choice(['5', '7', '-2', '1/3', '1']),
+                              'objs': [{'t': 'non', 'name': 'x', 'up': [x]},
+                                       {'t': 'non', 'name': 'y', 'up': [x]}]
+                              + spect + [br(x)]})
+            symobjs = []
+            for x in S_:
+                symobjs += [{'t': 'non', 'name': 'x', 'up': [x]},
+                            {'t': 'non', 'name': 'y', 'up': [x]}]
+            terms.append({'pref': r.choice(['1', '-1', '3/2']),
+                          'objs': symobjs + spect + [br(r.choice(S_))]})
+            r.shuffle(terms)
+            base.update(terms=terms, targets=[], structured='sym_remainder')
         elif kind == 'group':
             first = _frac_term(r, g)
             if first is None:
